@@ -141,3 +141,30 @@ Theorem model_is_code_add_calendar : forall t W f years months weeks days hours 
   res_of (Some t) (add_calendar (gz_zone t) (gz_fixed t) W years months weeks days hours minutes seconds us).
 Proof. exact glue_add_calendar. Qed.
 Print Assumptions model_is_code_add_calendar.
+
+(* DateTime.add / subtract as a whole = dt_add / dt_subtract (Model/CalendarArith.v): the naive, calendar-unit and fixed-unit branches together.
+   tzo_ok: a FixedTimezone's table is fixed_zone of its offset and identity tag 0 is pendulum.UTC; add_side: the timedelta of the fixed part
+   exists and add_duration's own result lies in years 1..9999 *)
+From PV Require Import Spec.TdFloat Model.Duration Model.CalendarArith.
+Theorem model_is_code_datetime_add : forall tzo W f y mo wk d h m s us, wall_in_range W = true -> tzo_ok tzo -> add_side W y mo wk d h m s us ->
+  glue_DateTime_add (dt_of W f tzo) y mo wk d h m s us = res_of tzo (dt_add (tzk_of tzo) W f y mo wk d h m s us).
+Proof. exact glue_dt_add. Qed.
+Print Assumptions model_is_code_datetime_add.
+
+Theorem model_is_code_datetime_subtract : forall tzo W f y mo wk d h m s us, wall_in_range W = true -> tzo_ok tzo ->
+  add_side W (- y) (- mo) (- wk) (- d) (- h) (- m) (- s) (- us) ->
+  glue_DateTime_subtract (dt_of W f tzo) y mo wk d h m s us = res_of tzo (dt_subtract (tzk_of tzo) W f y mo wk d h m s us).
+Proof. exact glue_dt_subtract. Qed.
+Print Assumptions model_is_code_datetime_subtract.
+
+(* DateTime.__add__(other): the stack inspection `traceback.extract_stack(limit=2)[0].name == "astimezone"` is the explicit parameter `called`:
+   True exactly when the calling frame is a function named astimezone (datetime.astimezone's chain) -> the NATIVE addition; every other caller
+   (the + operator, __radd__) passes False -> _add_timedelta_ *)
+Theorem model_is_code_datetime_dunder_add : forall dt o called,
+  glue_DateTime___add__ dt o called = if called then nat_add dt (op_us o) else g_add_timedelta dt o.
+Proof. exact glue_dunder_add. Qed.
+Print Assumptions model_is_code_datetime_dunder_add.
+
+Theorem model_is_code_datetime_dunder_radd : forall dt o, glue_DateTime___radd__ dt o = g_add_timedelta dt o.
+Proof. exact glue_dunder_radd. Qed.
+Print Assumptions model_is_code_datetime_dunder_radd.
